@@ -62,8 +62,12 @@ pub fn mk_engine(rules: &[Rule], depth: usize, strat: &str, maxsol: usize, memo:
 
 /// (provable or error/panic tag, goal true in returned facts, facts unchanged)
 pub fn run_query(e: &mut BackwardEngine, facts: &mut Facts, gf: &str, gv: &str) -> (String, bool, bool) {
+    run_query_neg(e, facts, gf, gv, false)
+}
+
+pub fn run_query_neg(e: &mut BackwardEngine, facts: &mut Facts, gf: &str, gv: &str, neg: bool) -> (String, bool, bool) {
     let before = facts.get_all_facts();
-    let q = format!("{}.v == {}", gf, if gv == "T" { "true" } else { "false" });
+    let q = format!("{}{}.v == {}", if neg { "NOT " } else { "" }, gf, if gv == "T" { "true" } else { "false" });
     let r = catch_unwind(AssertUnwindSafe(|| e.query(&q, facts)));
     let verdict = match r {
         Ok(Ok(res)) => if res.provable { "yes" } else { "no" }.to_string(),
@@ -136,10 +140,12 @@ impl Model for BW {
                 let (gf, gv) = (l["gf"].as_str().unwrap(), l["gv"].as_str().unwrap());
                 let depth = l["depth"].as_u64().unwrap() as usize;
                 let strat = l["strat"].as_str().unwrap();
-                let tag = format!("{}/{}", depth, strat);
+                let neg = l["neg"].as_bool().unwrap_or(false);
+                let maxsol = l["maxsol"].as_u64().unwrap_or(1) as usize;
+                let tag = format!("{}/{}/{}", depth, strat, maxsol);
                 if self.pengine.as_ref().map(|(_, t)| *t != tag).unwrap_or(true) {
                     // configuration is part of what an answer may depend on: one persistent engine per configuration
-                    self.pengine = Some((mk_engine(&self.rules, depth, strat, 1, true), tag));
+                    self.pengine = Some((mk_engine(&self.rules, depth, strat, maxsol, true), tag));
                 }
                 // fresh engine on a copy of exactly the facts that are about to be passed in
                 let mut copy = Facts::new();
@@ -149,9 +155,9 @@ impl Model for BW {
                 for k in keys {
                     copy.set(k, snapshot[k].clone());
                 }
-                let mut fresh = mk_engine(&self.rules, depth, strat, 1, true);
-                let (fv, _, _) = run_query(&mut fresh, &mut copy, gf, gv);
-                let (pv, _, _) = run_query(&mut self.pengine.as_mut().unwrap().0, &mut self.pfacts, gf, gv);
+                let mut fresh = mk_engine(&self.rules, depth, strat, maxsol, true);
+                let (fv, _, _) = run_query_neg(&mut fresh, &mut copy, gf, gv, neg);
+                let (pv, _, _) = run_query_neg(&mut self.pengine.as_mut().unwrap().0, &mut self.pfacts, gf, gv, neg);
                 if fv == pv {
                     json!({"agrees": true})
                 } else {
@@ -175,10 +181,66 @@ pub fn cmd_bwrec(args: &Args) -> i32 {
     let (mut yes, mut no) = (0, 0);
     for _ in 0..n {
         let nf = 3 + rng.below(3);
-        let nr = 1 + rng.below(8);
+        let mut nr = 1 + rng.below(8);
         let definite = rng.chance(1, 2);
         let mut rules_json = vec![];
         let mut rules = vec![];
+        // a quarter of the programs are structured derivations whose height is known: a chain A <= B <= C ... or a
+        // conjunctive tree, all heads true (definite and consistent), queried at depths around the height
+        let family = rng.below(8);
+        if family < 2 {
+            let n = 2 + rng.below(4); // chain over n+1 fields
+            let mut fj = serde_json::Map::new();
+            for (k, fld) in fields.iter().enumerate() {
+                fj.insert(fld.to_string(), json!(if k == n.min(4) { "T" } else { "abs" }));
+            }
+            let len = n.min(4);
+            let mut order: Vec<usize> = (0..len).collect();
+            if family == 1 {
+                order.reverse(); // rule order in the knowledge base should not matter
+            }
+            for (ri, &k) in order.iter().enumerate() {
+                let body = json!({"k": "one", "a": [fields[k + 1], "T"], "b": [fields[k + 1], "T"]});
+                rules.push(mk_rule(ri + 1, &body, fields[k], "T", false));
+                rules_json.push(json!({"body": body, "hf": fields[k], "hv": "T", "bad": false}));
+            }
+            let mut facts = HashMap::new();
+            for (k, v) in &fj {
+                facts.insert(k.clone(), v.as_str().unwrap().to_string());
+            }
+            let depth = (len + rng.below(3)).saturating_sub(1); // len-1, len, len+1
+            let mut e = mk_engine(&rules, depth, "dfs", 1, rng.chance(1, 2));
+            let mut fs = mk_facts(&facts);
+            let (verdict, holds, unchanged) = run_query(&mut e, &mut fs, "A", "T");
+            if verdict == "yes" { yes += 1; } else if verdict == "no" { no += 1; }
+            writeln!(f, "{}", json!({"rules": rules_json, "facts": fj, "gf": "A", "gv": "T", "depth": depth, "strat": "dfs",
+                "maxsol": 1, "neg": false, "verdict": verdict, "holds": holds, "unchanged": unchanged})).unwrap();
+            continue;
+        }
+        if family == 2 {
+            // tree: A <= B /\ C ; B <= D ; C <= D /\ E ; facts D, E  (height 2)
+            nr = 0;
+            let _ = nr;
+            let specs = [("and", "B", "C", "A"), ("one", "D", "D", "B"), ("and", "D", "E", "C")];
+            for (ri, (k, a, b, h)) in specs.iter().enumerate() {
+                let body = json!({"k": k, "a": [a, "T"], "b": [b, "T"]});
+                rules.push(mk_rule(ri + 1, &body, h, "T", false));
+                rules_json.push(json!({"body": body, "hf": h, "hv": "T", "bad": false}));
+            }
+            let fj = json!({"A": "abs", "B": "abs", "C": "abs", "D": "T", "E": "T"});
+            let mut facts = HashMap::new();
+            for (k, v) in fj.as_object().unwrap() {
+                facts.insert(k.clone(), v.as_str().unwrap().to_string());
+            }
+            let depth = 1 + rng.below(3);
+            let mut e = mk_engine(&rules, depth, "dfs", 1, rng.chance(1, 2));
+            let mut fs = mk_facts(&facts);
+            let (verdict, holds, unchanged) = run_query(&mut e, &mut fs, "A", "T");
+            if verdict == "yes" { yes += 1; } else if verdict == "no" { no += 1; }
+            writeln!(f, "{}", json!({"rules": rules_json, "facts": fj, "gf": "A", "gv": "T", "depth": depth, "strat": "dfs",
+                "maxsol": 1, "neg": false, "verdict": verdict, "holds": holds, "unchanged": unchanged})).unwrap();
+            continue;
+        }
         for i in 0..nr {
             let k = if definite { ["one", "and"][rng.below(2)] } else { ["one", "and", "or"][rng.below(3)] };
             let (af, av) = (fields[rng.below(nf)], ["T", "F"][rng.below(4) / 3]);
@@ -209,14 +271,15 @@ pub fn cmd_bwrec(args: &Args) -> i32 {
         let maxsol = [1usize, 1, 3][rng.below(3)];
         let mut e = mk_engine(&rules, depth, strat, maxsol, rng.chance(1, 2));
         let mut fs = mk_facts(&facts);
-        let (verdict, holds, unchanged) = run_query(&mut e, &mut fs, gf, gv);
+        let neg = rng.chance(1, 7);
+        let (verdict, holds, unchanged) = run_query_neg(&mut e, &mut fs, gf, gv, neg);
         if verdict == "yes" {
             yes += 1;
         } else if verdict == "no" {
             no += 1;
         }
         writeln!(f, "{}", json!({"rules": rules_json, "facts": facts_json, "gf": gf, "gv": gv, "depth": depth, "strat": strat,
-            "maxsol": maxsol, "verdict": verdict, "holds": holds, "unchanged": unchanged})).unwrap();
+            "maxsol": maxsol, "neg": neg, "verdict": verdict, "holds": holds, "unchanged": unchanged})).unwrap();
     }
     println!("{}", json!({"programs": n, "provable": yes, "not_provable": no}));
     0
